@@ -1594,7 +1594,7 @@ def vm_crosscheck(ctx, sample):
         term, shape = gallina_of_request(line)
         shapes.append(shape)
         body.append(f"Eval vm_compute in ({term}).")
-    out = coq_eval(ctx["verif"], "C13", "crosscheck", "\n".join(body) + "\n", timeout=120)
+    out = coq_eval(ctx["verif"], "C13", "crosscheck", "\n".join(body) + "\n", timeout=600)
     blocks = re.split(r"(?m)^\s*= ", out)[1:]
     bad = []
     if len(blocks) != len(sample):
